@@ -265,6 +265,7 @@ func (a *fusedFlowActor) Receive(rctx *actor.ReceiveContext) {
 	case *streamElement:
 		result, pass, err := a.fn(msg.value)
 		if err != nil {
+			rctx.Tell(a.upstream, &streamCancel{subID: a.subID})
 			rctx.Tell(a.downstream, &streamError{subID: a.subID, err: err})
 			rctx.Shutdown()
 			return
